@@ -336,6 +336,9 @@ type Target struct {
 	// damaged: 0 not at all, 1 a few items, 2 periodically (every k-th item). The spans of
 	// the intact items are returned for the bounded-stop oracle (nil if unknown).
 	Gen func(src *sim.Src, ntok, brk int) (string, []itemSpan)
+	// Variant, when set, derives a second input from a generated one (same offsets up to
+	// some item, different text from there): for histories of two different inputs.
+	Variant func(src *sim.Src, in string, spans []itemSpan) string
 	// Events tells whether listener events reach rec (false for entry points that
 	// build the AST themselves): only then is parser progress observable.
 	Events bool
@@ -751,19 +754,37 @@ func (engine) Run(src *sim.Src, log *sim.Log, res *sim.Result) {
 			return safeParse(&tt, ctx, input, rec)
 		}
 		_, err1, pnc1 := sess1()
+		// the next parse with the same objects: the same input, or a different one that shares
+		// offsets and a prefix with it (state remembered per offset shows only then)
+		input2, ref2, refEv2 := input, ref, rrec.ev
+		otherInput := false
+		if t.Variant != nil && items != nil && src.Chance(1, 2) {
+			if v := t.Variant(src, input, items); v != input {
+				vctx := newSimCtx(errCanceled, -1)
+				vrec := &recorder{ctx: vctx, diverged: -1, stopAt: stopAt}
+				vctx.rec = vrec
+				vval, verr, vpnc := safeParse(t, vctx, v, vrec)
+				if vpnc == "" {
+					input2, refEv2, otherInput = v, vrec.ev, true
+					ref2 = outcome{val: vval, err: verr, n: vrec.n, errh: vrec.errh, maxEnd: vrec.maxEnd, polls: vctx.npolls, ticks: vctx.nticks}
+					res.Probe("reuse:next-parse-on-a-different-input")
+				}
+			}
+		}
 		ctx2 := newSimCtx(errCanceled, -1)
-		rec2 := &recorder{ctx: ctx2, ref: rrec.ev, diverged: -1, stopAt: stopAt}
-		if rrec.ev == nil {
+		rec2 := &recorder{ctx: ctx2, ref: refEv2, diverged: -1, stopAt: stopAt}
+		if refEv2 == nil {
 			rec2.ref = []event{}
 		}
 		ctx2.rec = rec2
 		tt := *t
 		tt.Parse = sess
-		val2, err2, pnc2 := safeParse(&tt, ctx2, input, rec2)
+		val2, err2, pnc2 := safeParse(&tt, ctx2, input2, rec2)
 		res.Steps += ctx.nticks + ctx2.nticks
-		same2 := pnc2 == "" && rec2.diverged < 0 && rec2.n == ref.n && val2 == ref.val && sameErr(err2, ref.err)
-		log.Printf("reuse: cancelled parse (fireAt=%d) -> err=%s panic=%q; next parse with the same objects -> err=%s events=%d diverged=%d same=%v", fireAt, errString(err1), pnc1, errString(err2), rec2.n, rec2.diverged, same2)
+		same2 := pnc2 == "" && rec2.diverged < 0 && rec2.n == ref2.n && val2 == ref2.val && sameErr(err2, ref2.err)
+		log.Printf("reuse: cancelled parse (fireAt=%d) -> err=%s panic=%q; next parse with the same objects (other input: %v) -> err=%s events=%d diverged=%d same=%v", fireAt, errString(err1), pnc1, otherInput, errString(err2), rec2.n, rec2.diverged, same2)
 		res.Probe("reuse:parse-after-cancelled-parse")
+		ref := ref2
 		if !same2 {
 			res.Fail("C29.safety", "stale-state-after-cancel:"+t.Name,
 				"target %s: after a cancelled parse (cancel at tick %d, returned %s) the next, never-cancelled parse with the SAME parser objects returned err=%s panic=%q, %d events (first divergence at %d), value %.60q; a parse with fresh objects returns err=%s, %d events, value %.60q",
